@@ -387,6 +387,8 @@ def execute(job):
         env.pop("PYTHONPATH", None)          # the script's shell_setup exports it
     log = os.path.join(st["dir"], f"log-{kind}-{run['k']}")
     env["XV_C16_LOG"] = log
+    if "num-workers" in str(cfg.get("res")) or "--num-workers" in (cfg.get("cli") or []):
+        env["XV_C16_SLOW"] = "1"
     if kind == "script":
         if run["t"] is not None:
             env[VAR[cfg["sched"]]] = str(run["t"])
